@@ -3,6 +3,8 @@ package main
 import (
 	"context"
 	"fmt"
+	"strings"
+	"sync"
 
 	sm "github.com/smart-core-os/sc-golang/internal/verif/seqmodel"
 	"github.com/smart-core-os/sc-golang/internal/verif/vk"
@@ -308,4 +310,100 @@ func leaverMidSeed(r *vk.Run) {
 		}
 	}
 	r.Require("leaver-mid-seed-scenarios", 3)
+}
+
+// joinAfterUnpublishedCommits: two writers have COMMITTED (an update of a, then the delete of a) but neither event
+// is published yet (the first writer is parked between commit and publication, the second waits for its turn behind
+// it); now a seeded subscriber joins. Its seed is the committed state (empty, or just the bystander item c), so
+// none of the two pending events is for it: after the seed it gets exactly one event per LATER write, here the
+// ADD of b. Collections that are empty at the snapshot are the case of interest.
+func joinAfterUnpublishedCommits(r *vk.Run) {
+	sched := vk.NewSched()
+	defer sched.Close()
+	idx := 0
+	for _, bystander := range []bool{false, true} {
+		for _, bp := range []bool{true, false} {
+			for _, pullID := range []bool{false, true} {
+				idx++
+				if !r.Mine(idx) {
+					continue
+				}
+				opts := []resource.Option{resource.WithInitialRecord("a", val(1, "a0"))}
+				if bystander {
+					opts = append(opts, resource.WithInitialRecord("c", val(3, "c0")))
+				}
+				col := resource.NewCollection(opts...)
+				ctx, cancel := context.WithCancel(context.Background())
+				park := sched.ParkAt("col.update.beforePublish", nil)
+				t1 := vk.Go(func() { col.Update("a", val(2, "a1")) })
+				vk.Quiesce()
+				reached := park.Arrived()
+				t2 := vk.Go(func() { col.Delete("a") })
+				vk.Quiesce()
+				var mu sync.Mutex
+				var got []string
+				if pullID {
+					ch := col.PullID(ctx, "b", resource.WithBackpressure(bp))
+					go func() {
+						for e := range ch {
+							mu.Lock()
+							got = append(got, fmt.Sprintf("VALUE %s", vk.JSON(e.Value)))
+							mu.Unlock()
+						}
+					}()
+				} else {
+					ch := col.Pull(ctx, resource.WithBackpressure(bp))
+					go func() {
+						for e := range ch {
+							mu.Lock()
+							got = append(got, fmt.Sprintf("%s %s", e.ChangeType, e.Id))
+							mu.Unlock()
+						}
+					}()
+				}
+				vk.Quiesce()
+				park.Release()
+				vk.Quiesce()
+				t3 := vk.Go(func() { col.Add("b", val(4, "b0")) })
+				gs, ok := r.MustQuiesce("c04-join-unpublished")
+				if !ok {
+					cancel()
+					return
+				}
+				r.Eval(1)
+				r.Count("join-after-unpublished-commits-scenarios", 1)
+				if reached {
+					r.Distinct(fmt.Sprintf("joinunpub|%v|%v|%v", bystander, bp, pullID))
+				}
+				mode := map[bool]string{true: "bp", false: "lossy"}[bp]
+				kind := map[bool]string{true: "pullid", false: "pull"}[pullID]
+				key := "C04/join/after-unpublished-commits/" + kind + "/" + mode
+				replay := map[string]any{"bystander": bystander, "bp": bp, "pullID": pullID}
+				desc := fmt.Sprintf("collection {a%s}: Update(a) committed and parked before publishing, Delete(a) committed and queued behind it, then a seeded %s subscriber (%s) joins, the writers are released, Add(b) follows", map[bool]string{true: ", c", false: ""}[bystander], kind, mode)
+				if !t1.Done() || !t2.Done() || !t3.Done() {
+					r.Violation(key+"/writer-stuck", fmt.Sprintf("%s: a writer has not returned at the quiescent point\n%s", desc, vk.DescribeGs(vk.LibraryGoroutines(gs, nil))), replay)
+					cancel()
+					return
+				}
+				var want []string
+				switch {
+				case pullID:
+					want = []string{"VALUE " + vk.JSON(val(4, "b0"))}
+				case bystander:
+					want = []string{"ADD c", "ADD b"}
+				default:
+					want = []string{"ADD b"}
+				}
+				mu.Lock()
+				have := append([]string{}, got...)
+				mu.Unlock()
+				if strings.Join(have, "; ") != strings.Join(want, "; ") {
+					r.Violation(key, fmt.Sprintf("%s: the subscriber received [%s], want [%s] (its seed is the committed state, the two pending events predate it)", desc, strings.Join(have, "; "), strings.Join(want, "; ")), replay)
+				}
+				cancel()
+				vk.Quiesce()
+			}
+		}
+	}
+	r.Require("join-after-unpublished-commits-scenarios", 2)
 }
